@@ -784,6 +784,57 @@ func c19(c *core.Ctx) {
 			if nM == 0 {
 				c.Fail(key+":M-option", pa.Pos(), "no import-map store found")
 			}
+			// every option is looked at: the loop over the options is left early only by returning an error — a
+			// `break` that leaves the loop silently drops every option that follows
+			{
+				loops := core.LoopOf(pa)
+				// the loop whose header tests the index against len(args) / ranges over the parameter
+				var hdr *ssa.BasicBlock
+				for _, b := range pa.Blocks {
+					if loops[b] < 0 || len(b.Succs) != 2 {
+						continue
+					}
+					// header: the block of the loop that is entered from outside it
+					fromOutside := false
+					for _, pr := range b.Preds {
+						if loops[pr] != loops[b] {
+							fromOutside = true
+						}
+					}
+					in0, in1 := loops[b.Succs[0]] == loops[b], loops[b.Succs[1]] == loops[b]
+					if fromOutside && in0 != in1 && hdr == nil {
+						hdr = b
+					}
+				}
+				if hdr == nil {
+					c.Undecided(key+":every-option-examined", pa.Pos(), "cannot find the loop over the options")
+				} else {
+					var exit *ssa.BasicBlock
+					for _, sc := range hdr.Succs {
+						if loops[sc] != loops[hdr] {
+							exit = sc
+						}
+					}
+					bad := false
+					var where token.Pos
+					// a break: the loop's exit block is also entered from a block that the header dominates
+					if exit != nil {
+						for _, pr := range exit.Preds {
+							if pr != hdr && hdr.Dominates(pr) {
+								bad = true
+								where = pr.Instrs[len(pr.Instrs)-1].Pos()
+								if !where.IsValid() && len(pr.Instrs) > 1 {
+									where = pr.Instrs[0].Pos()
+								}
+							}
+						}
+					}
+					if !where.IsValid() {
+						where = pa.Pos()
+					}
+					c.Check(!bad, key+":every-option-examined", where, "the options loop is left only through its own end or by returning", "the options loop can be left from inside its body (a break that meant to leave a switch): every option after that one is silently ignored")
+				}
+			}
 			core.ComputeParamLenHints(p.LibFuncs(genPkg))
 			for _, fn := range p.LibFuncs(genPkg) {
 				if fn != pa && !(len(fn.Params) == 1 && core.TypeStr(fn.Params[0].Type()) == "[]string") {
